@@ -40,6 +40,27 @@ class RecStream:
         raise ValueError(p)
 
     stalls = None       # {index of the read() call: virtual seconds the peer stays silent before it}
+    rtype = None        # bytearray: a server whose input stream hands out its receive buffer's type instead of bytes
+
+    def as_bytearray(self):
+        self.rtype = bytearray
+        flavour_counts['input_stream_returning_bytearray'] = flavour_counts.get('input_stream_returning_bytearray', 0) + 1
+        return self
+
+    def as_reused_buffer_view(self):
+        # recv_into() a buffer of the server's own and hand out a view of it: the bytes are only good until the next read
+        self._rbuf = bytearray(1 << 16)
+        self.rtype = self._view
+        flavour_counts['input_stream_returning_views_of_one_reused_buffer'] = flavour_counts.get('input_stream_returning_views_of_one_reused_buffer', 0) + 1
+        return self
+
+    def _view(self, out):
+        if len(out) > len(self._rbuf):
+            self._rbuf = bytearray(len(out))
+        self._rbuf[:len(out)] = out
+        for i in range(len(out), min(len(out) + 8, len(self._rbuf))):
+            self._rbuf[i] = 0x5a
+        return memoryview(self._rbuf)[:len(out)]
 
     def read(self, n=-1):
         if self.stalls and len(self.reads) in self.stalls:
@@ -59,7 +80,7 @@ class RecStream:
         out = self.data[self.pos:self.pos + k]
         self.pos += k
         self.reads.append((req, len(out)))
-        return out
+        return out if self.rtype is None else self.rtype(out)
 
     def readline(self, n=-1):
         # PEP 3333 requires the method; the code under test is not expected to use it
